@@ -119,12 +119,18 @@ def run(rng, tier, res=None, metrics=None):
                 vz = float(fn(np.array(zx), np.array(zy)))
                 if not np.isfinite(vz):
                     viol("C08", f"{name} returned {vz!r} on zero-containing non-negative vectors", {"metric": name, "x": zx, "y": zy})
+                if zs and dom in ("nonneg", "real", "pos"):
+                    vzz = float(fn(np.array(zx), np.array(zx)))
+                    if np.isfinite(vzz) and abs(vzz) > (1e-6 if name in ("chord",) else 1e-9):   # chord: square root of a rounding residue
+                        viol("C08", f"{name}(x, x) = {vzz!r} on the zero-containing vector {zx}, expected 0 up to rounding", {"metric": name, "x": zx, "y": zx})
             except Exception as ex:
                 viol("C08", f"{name} raised {type(ex).__name__} on zero-containing non-negative vectors", {"metric": name, "x": zx, "y": zy})
             res.hit("poszero_fixed_vectors")
         for c in range(per):
             d = rng.choice([1, 2, 3, 4, 5, 7, 8, 9, 12])
-            special = rng.choice([None, None, None, "zeros", "lattice", "equal", "parallel", "near", "poszero", "sharedbig", "close"])
+            special = rng.choice([None, None, None, "zeros", "lattice", "equal", "parallel", "near", "poszero", "sharedbig", "close", "chain"])
+            if tri and c < 3 and dom in ("real", "nonneg", "pos"):
+                special = ("close", "chain", "close")[c]     # every true metric sees nearby collinear triples on every run
             x = gen_vec(rng, d, dom, special)
             if special == "poszero":
                 # zero-containing non-negative vectors: what avoid_zero_division exists for (finiteness only)
@@ -176,6 +182,18 @@ def run(rng, tier, res=None, metrics=None):
                 dir_ = [rng.uniform(0.5, 1.0) for _ in range(d)]
                 t1, t2 = sorted([rng.uniform(0.05, 0.3), rng.uniform(0.3, 0.6)])
                 x = list(base_); z = [b_ + t1 * u_ for b_, u_ in zip(base_, dir_)]; y = [b_ + t2 * u_ for b_, u_ in zip(base_, dir_)]
+            if dom == "pos" and name in A.SHIFTED and c % 6 == 4:
+                # strictly positive vectors with entries at or below the guard constant (1e-20): the guard is part of the closed form
+                special = "tinypos"
+                x = [rng.choice([1e-21, 2e-22, 5e-20, 1.0, 0.5, 2.0, 3e-19]) for _ in range(d)]
+                y = [rng.choice([1e-21, 2e-22, 5e-20, 1.0, 0.5, 2.0, 3e-19]) for _ in range(d)]
+                z = [rng.choice([1e-21, 5e-20, 1.0, 0.5]) for _ in range(d)]
+            if special == "chain" and dom in ("real", "nonneg", "pos"):
+                # three DISTINCT points in a row, each step relatively tiny (a few 1e-6), the ends twice as far apart
+                step = rng.choice([4e-6, 8e-6, 3e-7])
+                x = [rng.uniform(0.5, 3.0) for _ in range(d)]
+                z = [v * (1 + step) for v in x]
+                y = [v * (1 + 2 * step) for v in x]
             xa, ya, za = np.array(x), np.array(y), np.array(z)
             xb, yb = xa.tobytes(), ya.tobytes()
             meta = {"metric": name, "x": x, "y": y}
